@@ -16,6 +16,8 @@ EXPLANATION = (
     "(after R15-merge-before-read), mean = sum/count, min/max return the fields, is_empty == centroids.is_empty() && backlog.is_empty()."
     " insert_weighted also counts n_samples by exactly one. C19's clear rules are applied to TDigest/TDigestInner."
 )
+from .common import NEW_WRITERS_NOTE as _NWN
+EXPLANATION = EXPLANATION + _NWN % "16"
 NOT_DECIDED = "floating-point accumulation accuracy"
 ASSUMPTIONS = ["sort_by permutes its slice", "Vec::drain(range) yields exactly the elements of the range", "collect gathers every item"]
 
@@ -32,6 +34,8 @@ def insert_rules(ctx):
 
 
 def run(ctx):
+    from .common import check_new_writers
+    check_new_writers(ctx, "R16-new-writers", ['tdigest::TDigest', 'tdigest::TDigestInner'])
     # a digest that keeps state across clear() answers for a mixture of the old and the new data: C19's clear rules for TDigest
     from .C19 import run_clear_rules
     run_clear_rules(ctx, only_adt="tdigest::TDigestInner", floor=1)
